@@ -13,7 +13,8 @@ package main
 //	hdr         slot:proposer:parent:state:body
 //	store       finhdr/opthdr/cur/next|-/prevmax/curmax          (cur, next: index into <committees>)
 //	step        mode,now,fork,atthdr,next|-,nextbr|-,finhdr|-,finbr|-,bits,sig,sigslot
-//	            mode = U F O (typed update through VerifyUpdate/VerifyFinalityUpdate/VerifyOptimisticUpdate) or G (VerifyGenericUpdate),
+//	            mode = U F O (wire object through VerifyUpdate/VerifyFinalityUpdate/VerifyOptimisticUpdate) followed by the fork container type
+//	            a c d (altair, capella, deneb) or e (a type none of the converters accepts), or G (hand-built GenericUpdate, VerifyGenericUpdate),
 //	            lower case = apply even if verification failed;  branch = root/root/...
 //	            sig = g0 (undecodable bytes) | g1 (a curve point that signs nothing relevant) | s:<msg>:<committee>:<bits> (the
 //	            aggregate of the real signatures of the keys of <committee> selected by <bits> over <msg>)
@@ -21,9 +22,10 @@ package main
 //	            P no participation, F signature slot in the future, O slots unordered, W period does not fit the store,
 //	            I irrelevant, B finality branch/header corrupted, C committee branch/committee corrupted, S signature is not a
 //	            signature over the signing root, K signer set differs from the participating keys, U unpaired header/branch
-//	            (not constructible from a wire update), L ill-typed lengths (not constructible by SSZ decoding)
+//	            (not constructible from a wire update), L ill-typed lengths (not constructible by SSZ decoding), T wire type unknown to the converters
+//	shape       what the converter (From*Update, called directly) returned: <next>.<fin>, next = - | c | b<len> | cb<len>, fin = - | h | b<len> | hb<len>, or err
 //	obs         first the digest of the initial store, then per step:
-//	step obs    ok|err<N>|panic / fslot:froot:oslot:oroot:cur:next|-:prevmax:curmax   (roots by zrnt HashTreeRoot)
+//	step obs    ok|err<N>|panic / shape / fslot:froot:oslot:oroot:cur:next|-:prevmax:curmax   (roots by zrnt HashTreeRoot)
 
 import (
 	"crypto/sha256"
@@ -228,6 +230,7 @@ func (s *c12Sig) String() string {
 
 type c12Step struct {
 	mode    byte // U F O G
+	wf      byte // fork container type of a wire object: a c d e (0 for G)
 	force   bool
 	now     uint64
 	fork    [4]byte
@@ -272,6 +275,9 @@ func (s *c12Step) String() string {
 	if s.force {
 		m = strings.ToLower(m)
 	}
+	if s.mode != 'G' {
+		m += string(s.wf)
+	}
 	nx := "-"
 	if s.next >= 0 {
 		nx = strconv.Itoa(s.next)
@@ -287,8 +293,11 @@ func (s *c12Step) String() string {
 func c12ParseStep(f string) c12Step {
 	p := strings.Split(f, ",")
 	var s c12Step
-	s.mode = strings.ToUpper(p[0])[0]
-	s.force = p[0] != strings.ToUpper(p[0])
+	s.mode = strings.ToUpper(p[0][:1])[0]
+	s.force = p[0][:1] != strings.ToUpper(p[0][:1])
+	if len(p[0]) > 1 {
+		s.wf = p[0][1]
+	}
 	s.now, _ = strconv.ParseUint(p[1], 10, 64)
 	copy(s.fork[:], unhx(p[2]))
 	s.att = c12ParseHdr(p[3])
@@ -391,6 +400,9 @@ var c12errs = []error{nil, beacon.ErrInsufficientParticipation, beacon.ErrInvali
 	beacon.ErrInvalidFinalityProof, beacon.ErrInvalidNextSyncCommitteeProof, beacon.ErrInvalidSignature}
 
 func c12ErrClass(err error) string {
+	if strings.Contains(err.Error(), "unknown") && strings.Contains(err.Error(), "update type") {
+		return "err13" // a wire type none of the converters accepts
+	}
 	for i := 1; i < len(c12errs); i++ {
 		if errors.Is(err, c12errs[i]) {
 			return fmt.Sprintf("err%d", i)
@@ -472,25 +484,69 @@ func c12Arr5(b [][32]byte) (out altair.SyncCommitteeProofBranch) {
 // exec runs one step on the real client and returns its observation
 func (r *c12Runner) exec(s *c12Step) string {
 	agg := altair.SyncAggregate{SyncCommitteeBits: altair.SyncCommitteeBits(s.bits), SyncCommitteeSignature: r.realSig(&s.sig)}
-	att := capella.LightClientHeader{Beacon: *s.att.real()}
 	var verify func() error
 	var apply func()
 	cl := r.client
+	var shapeOf func() (*beacon.GenericUpdate, error)
+	bh := *s.att.real()
+	sl := common.Slot(s.sigSlot)
 	switch s.mode {
 	case 'U':
-		u := &capella.LightClientUpdate{AttestedHeader: att, NextSyncCommittee: *r.comms[s.next].real, NextSyncCommitteeBranch: c12Arr5(s.nextBr),
-			FinalizedHeader: capella.LightClientHeader{Beacon: *s.fin.real()}, FinalityBranch: c12Arr6(s.finBr), SyncAggregate: agg, SignatureSlot: common.Slot(s.sigSlot)}
+		nc, nb, fb := *r.comms[s.next].real, c12Arr5(s.nextBr), c12Arr6(s.finBr)
+		fh := *s.fin.real()
+		var u common.SpecObj
+		switch s.wf {
+		case 'a':
+			u = &altair.LightClientUpdate{AttestedHeader: altair.LightClientHeader{Beacon: bh}, NextSyncCommittee: nc, NextSyncCommitteeBranch: nb,
+				FinalizedHeader: altair.LightClientHeader{Beacon: fh}, FinalityBranch: fb, SyncAggregate: agg, SignatureSlot: sl}
+		case 'c':
+			u = &capella.LightClientUpdate{AttestedHeader: capella.LightClientHeader{Beacon: bh}, NextSyncCommittee: nc, NextSyncCommitteeBranch: nb,
+				FinalizedHeader: capella.LightClientHeader{Beacon: fh}, FinalityBranch: fb, SyncAggregate: agg, SignatureSlot: sl}
+		case 'd':
+			u = &deneb.LightClientUpdate{AttestedHeader: deneb.LightClientHeader{Beacon: bh}, NextSyncCommittee: nc, NextSyncCommitteeBranch: nb,
+				FinalizedHeader: deneb.LightClientHeader{Beacon: fh}, FinalityBranch: fb, SyncAggregate: agg, SignatureSlot: sl}
+		default:
+			u = &electra.LightClientUpdate{AttestedHeader: deneb.LightClientHeader{Beacon: bh}, NextSyncCommittee: nc,
+				FinalizedHeader: deneb.LightClientHeader{Beacon: fh}, SyncAggregate: agg, SignatureSlot: sl}
+		}
 		verify = func() error { return cl.VerifyUpdate(u) }
 		apply = func() { _ = cl.ApplyUpdate(u) }
+		shapeOf = func() (*beacon.GenericUpdate, error) { return beacon.FromLightClientUpdate(u) }
 	case 'F':
-		u := &deneb.LightClientFinalityUpdate{AttestedHeader: deneb.LightClientHeader{Beacon: *s.att.real()},
-			FinalizedHeader: deneb.LightClientHeader{Beacon: *s.fin.real()}, FinalityBranch: c12Arr6(s.finBr), SyncAggregate: agg, SignatureSlot: common.Slot(s.sigSlot)}
+		fb := c12Arr6(s.finBr)
+		fh := *s.fin.real()
+		var u common.SpecObj
+		switch s.wf {
+		case 'a':
+			u = &altair.LightClientFinalityUpdate{AttestedHeader: altair.LightClientHeader{Beacon: bh}, FinalizedHeader: fh, FinalityBranch: fb, SyncAggregate: agg, SignatureSlot: sl}
+		case 'c':
+			u = &capella.LightClientFinalityUpdate{AttestedHeader: capella.LightClientHeader{Beacon: bh},
+				FinalizedHeader: capella.LightClientHeader{Beacon: fh}, FinalityBranch: fb, SyncAggregate: agg, SignatureSlot: sl}
+		case 'd':
+			u = &deneb.LightClientFinalityUpdate{AttestedHeader: deneb.LightClientHeader{Beacon: bh},
+				FinalizedHeader: deneb.LightClientHeader{Beacon: fh}, FinalityBranch: fb, SyncAggregate: agg, SignatureSlot: sl}
+		default:
+			u = &electra.LightClientFinalityUpdate{AttestedHeader: deneb.LightClientHeader{Beacon: bh},
+				FinalizedHeader: deneb.LightClientHeader{Beacon: fh}, SyncAggregate: agg, SignatureSlot: sl}
+		}
 		verify = func() error { return cl.VerifyFinalityUpdate(u) }
 		apply = func() { _ = cl.ApplyFinalityUpdate(u) }
+		shapeOf = func() (*beacon.GenericUpdate, error) { return beacon.FromLightClientFinalityUpdate(u) }
 	case 'O':
-		u := &altair.LightClientOptimisticUpdate{AttestedHeader: altair.LightClientHeader{Beacon: *s.att.real()}, SyncAggregate: agg, SignatureSlot: common.Slot(s.sigSlot)}
+		var u common.SpecObj
+		switch s.wf {
+		case 'a':
+			u = &altair.LightClientOptimisticUpdate{AttestedHeader: altair.LightClientHeader{Beacon: bh}, SyncAggregate: agg, SignatureSlot: sl}
+		case 'c':
+			u = &capella.LightClientOptimisticUpdate{AttestedHeader: capella.LightClientHeader{Beacon: bh}, SyncAggregate: agg, SignatureSlot: sl}
+		case 'd':
+			u = &deneb.LightClientOptimisticUpdate{AttestedHeader: deneb.LightClientHeader{Beacon: bh}, SyncAggregate: agg, SignatureSlot: sl}
+		default:
+			u = &electra.LightClientBootstrap{Header: deneb.LightClientHeader{Beacon: bh}}
+		}
 		verify = func() error { return cl.VerifyOptimisticUpdate(u) }
 		apply = func() { _ = cl.ApplyOptimisticUpdate(u) }
+		shapeOf = func() (*beacon.GenericUpdate, error) { return beacon.FromLightClientOptimisticUpdate(u) }
 	default:
 		g := &beacon.GenericUpdate{AttestedHeader: s.att.real(), SyncAggregate: &agg, SignatureSlot: common.Slot(s.sigSlot)}
 		if s.next >= 0 {
@@ -509,7 +565,36 @@ func (r *c12Runner) exec(s *c12Step) string {
 		}
 		verify = func() error { return cl.VerifyGenericUpdate(&cl.Store, g, s.now, r.genesis, s.fork) }
 		apply = func() { cl.ApplyGenericUpdate(g) }
+		shapeOf = func() (*beacon.GenericUpdate, error) { return g, nil }
 	}
+	shape := "panic"
+	guard(func() {
+		g, err := shapeOf()
+		if err != nil {
+			shape = "err"
+			return
+		}
+		nx, fn := "", ""
+		if g.NextSyncCommittee != nil {
+			nx += "c"
+		}
+		if g.NextSyncCommitteeBranch != nil {
+			nx += fmt.Sprintf("b%d", len(g.NextSyncCommitteeBranch))
+		}
+		if g.FinalizedHeader != nil {
+			fn += "h"
+		}
+		if g.FinalityBranch != nil {
+			fn += fmt.Sprintf("b%d", len(g.FinalityBranch))
+		}
+		if nx == "" {
+			nx = "-"
+		}
+		if fn == "" {
+			fn = "-"
+		}
+		shape = nx + "." + fn
+	})
 	r.setNow(s.now)
 	var err error
 	res := "ok"
@@ -523,7 +608,7 @@ func (r *c12Runner) exec(s *c12Step) string {
 			res = "panic"
 		}
 	}
-	return res + "/" + r.digest()
+	return res + "/" + shape + "/" + r.digest()
 }
 
 // ---------------------------------------------------------------- sparse state tree
@@ -604,6 +689,9 @@ func c12RandBits(r *Rng, n int) []byte {
 }
 
 type c12Gen struct {
+	forceSc   string // matrix cases: scenario, entry point and fork container are fixed
+	forceMode byte
+	forceWf   byte
 	c      *Ctx
 	run    *c12Runner
 	chain  map[uint64]int // period -> committee index (the honest chain's committee of that period)
@@ -706,6 +794,9 @@ func (g *c12Gen) nextStep() c12Step {
 	if sc == "valid" && !nextKnown && fin+2 > P*c12SPP+c12SPP-1 {
 		sc = "old-with-next" // the only way such a store can still advance
 	}
+	if g.forceSc != "" {
+		sc = g.forceSc
+	}
 	g.c.Count("scenario_" + sc)
 
 	var s c12Step
@@ -713,11 +804,22 @@ func (g *c12Gen) nextStep() c12Step {
 	if sc == "unpaired" || sc == "short-bits" {
 		s.mode = 'G'
 	}
+	if g.forceMode != 0 {
+		s.mode = g.forceMode
+	}
 	if c12In([]string{"next-branch-node", "next-key", "old-with-next"}, sc) && s.mode != 'G' {
 		s.mode = 'U'
 	}
 	if c12In([]string{"fin-branch-node", "fin-header-field", "unordered-fin"}, sc) && s.mode == 'O' {
 		s.mode = 'F'
+	}
+	if s.mode != 'G' {
+		s.wf = "acd"[r.Intn(3)]
+		if g.forceWf != 0 {
+			s.wf = g.forceWf
+		} else if r.Intn(25) == 0 {
+			s.wf = 'e'
+		}
 	}
 	// ---- signature period and slots
 	sigP := P
@@ -953,6 +1055,9 @@ func (g *c12Gen) truth(s *c12Step, flags string) string {
 	t := flags
 	if len(s.bits) != 64 {
 		return "L"
+	}
+	if s.mode != 'G' && s.wf == 'e' {
+		return "T" // a wire type none of the converters accepts: must be rejected whatever it carries
 	}
 	if (s.fin != nil) != s.hasFBr || (s.next >= 0) != s.hasNBr {
 		t += "U"
@@ -1215,13 +1320,68 @@ func c12History(c *Ctx, keys *c12Keys, nsteps int) {
 		steps = append(steps, s.String())
 		truths = append(truths, s.truth)
 		obs = append(obs, o)
-		c.Count("step_mode_" + string(s.mode))
+		c.Count("step_mode_" + strings.TrimRight(string(s.mode)+string(s.wf), "\x00"))
 		c.Count("step_result_" + strings.SplitN(o, "/", 2)[0])
 		if s.truth == "-" {
 			c.Count("step_valid_by_construction")
 		}
 	}
 	c.Emit("hist %d %s %s %s %s %s | ok %s", keys.seed, hx(gen[:]), run.commsString(), store0, strings.Join(steps, ";"), strings.Join(truths, ";"), strings.Join(obs, ";"))
+}
+
+// c12Matrix: every wire entry point (VerifyUpdate / VerifyFinalityUpdate / VerifyOptimisticUpdate + From*Update) for EVERY fork
+// container type the converters accept, each with an honest input and with exactly one corrupted field; one history per fork,
+// every step built against the current store and regenerated until the corruption is the ONLY thing wrong with it
+// (harness truth exactly "-", "B", "C" or "S"), so the verdict hinges on that field alone.  Plus one history of foreign types.
+var c12MatrixCases = []struct {
+	mode byte
+	sc   string
+	want string
+}{
+	{'F', "fin-branch-node", "B"}, {'F', "fin-header-field", "B"}, {'U', "fin-branch-node", "B"}, {'U', "fin-header-field", "B"},
+	{'U', "next-branch-node", "C"}, {'U', "next-key", "C"}, {'O', "att-field-after", "S"},
+	{'O', "valid", "-"}, {'F', "valid", "-"}, {'U', "valid", "-"},
+}
+
+func c12Matrix(c *Ctx, keys *c12Keys) {
+	r := c.Rng
+	for _, wf := range []byte("acde") {
+		var gen common.Root
+		copy(gen[:], r.Bytes(32))
+		run := c12NewRunner(keys, gen)
+		g := &c12Gen{c: c, run: run, chain: map[uint64]int{}}
+		P0 := uint64(r.Intn(7))
+		slot0 := P0*c12SPP + uint64(100+r.Intn(c12SPP-2000))
+		b := g.mkBoot(slot0, g.commFor(P0))
+		if o := run.execBoot(b); !strings.HasPrefix(o, "ok") {
+			panic("bootstrap of a matrix history failed: " + o)
+		}
+		store0 := g.storeString()
+		var steps, truths []string
+		obs := []string{run.digest()}
+		for _, mc := range c12MatrixCases {
+			g.forceSc, g.forceMode, g.forceWf = mc.sc, mc.mode, wf
+			want := mc.want
+			if wf == 'e' {
+				want = "T"
+			}
+			var s c12Step
+			ok := false
+			for try := 0; try < 60 && !ok; try++ {
+				s = g.nextStep()
+				s.force = false
+				ok = s.truth == want && c12Popcount(s.bits)*3 >= 1024
+			}
+			if !ok {
+				panic(fmt.Sprintf("matrix: no %c%c %s step with truth %s", mc.mode, wf, mc.sc, want))
+			}
+			steps = append(steps, s.String())
+			truths = append(truths, s.truth)
+			obs = append(obs, run.exec(&s))
+			c.Count(fmt.Sprintf("matrix_%c%c_%s", mc.mode, wf, mc.sc))
+		}
+		c.Emit("hist %d %s %s %s %s %s | ok %s", keys.seed, hx(gen[:]), run.commsString(), store0, strings.Join(steps, ";"), strings.Join(truths, ";"), strings.Join(obs, ";"))
+	}
 }
 
 func c12BootCases(c *Ctx, keys *c12Keys, n int) {
@@ -1345,6 +1505,7 @@ func runC12(c *Ctx) {
 		nh = c.N
 	}
 	c12BootCases(c, keys, nb)
+	c12Matrix(c, keys)
 	for i := 0; i < nh; i++ {
 		c12History(c, keys, steps+c.Rng.Intn(5))
 	}
